@@ -567,6 +567,14 @@ int main(int argc, char **argv)
                 }
                 if (!single.clean && bareSwitch && (single.timeout || single.sig == SIGALRM))
                     rep.fail("C03|stale-query-after-setProblemDefinition|" + planner + "|hang", "after a bare setProblemDefinition a call of the history did not return within 40 s (" + w + ")", curj);
+                else if (!single.clean && !single.sig && !single.timeout && single.code == 4)
+                {
+                    // exit code 4 is the choice oracle's own "replay divergence" abort (a deviation recorded in one run does not exist in the
+                    // next: the planner is not a function of the answer stream there): an internal limit of the exploration, reported as a
+                    // cap - never a finding of this property (hidden nondeterminism is C20's subject)
+                    rep.exhaustive = false;
+                    rep.caps.push_back("answer-stream replay diverged for " + planner + ": execution skipped (" + curj.substr(0, 120) + ")");
+                }
                 else if (!single.clean)
                     rep.fail(crashKey(planner, single), std::string(single.timeout || single.sig == SIGALRM ? "a call of the history did not return within 40 s (10x the in-group limit)" : "the call history or teardown crashed") + " (" + w + ")", curj);
                 else
